@@ -10,7 +10,10 @@ import json
 import common, docgen
 
 LEVEL = "other"
-THEOREMS = ["Mistune.iterRender_shape", "Mistune.m_sound"]
+THEOREMS = ["Mistune.iterRender_shape", "Mistune.m_sound",
+            # handler-level theorems for one construct of the canonical sub-language (ATX headings): the regenerated closing-sequence regex is the expected term,
+            # the text computation equals its list-level specification for every string, plain text comes back verbatim, a closing sequence is removed
+            "Mistune.atxTrimRx_lookup", "Mistune.atxText_eq", "Mistune.atxText_eq_ofRuleCfg", "Mistune.atx_plain_verbatim", "Mistune.atx_closing_removed", "Mistune.atx_glued_kept", "Mistune.parseAtxHeading_spec"]
 
 
 def features(doc_src):
@@ -95,7 +98,7 @@ def run(ctx):
         "samples": srcs[:2],
     })
     ctx.assumptions += ["canonical sub-language as generated by harness/docgen.py; two documented exclusions (tab-indented code inside containers; escaped backtick / '<' inside emphasis or link text followed by a code span or tag) are known findings",
-                        "no unbounded theorem: the level is 'tested against an executable Lean reference model'"]
+                        "unbounded theorems only for one construct (ATX heading text, handler level); the property as a whole is 'tested against an executable Lean reference model'"]
 
 
 def replay(ctx, path):
